@@ -1,11 +1,17 @@
--- GENERATED by /verif/extract from /repo's working tree. Do not edit: rewritten on every run.
-import CTV.Basic.I64
-import CTV.Basic.ErrKind
-import CTV.Gen.CtTypes
+import CTV.Gen.CtWrappers
+/-!
+Reference copies (`Spec.*`) of the whole bodies regenerated from serialization.go (extract/k_ctwrappers.go), and the equalities
+`Gen.X = Spec.X`. The tie theorems of `Props/C04Tie.lean` are proved against the copies, so a behaviour-preserving restructuring of
+`SerializeSCTSignatureInput`, `SerializeSTHSignatureInput`, `LeafHashForLeaf`, `IsPreIssuer` or `MerkleTreeLeafFromChain` (a case
+moved into a helper, a guard flipped, `err == nil` nesting, `slices.Contains` for the search loop, the precert roles picked by a
+helper with several results) only has to get through `same_body`; a change of behaviour makes the equality false.
+-/
+/-- unfold both bodies; `rfl`, `grind` (congruence closure with case splits on the `if`s) or split every `if` and close each case by simp -/
+macro "same_body" a:ident b:ident : tactic =>
+  `(tactic| (unfold $a $b; first | rfl | grind | ((try simp only []); first | done | rfl | ((repeat' split) <;> (first | rfl | grind | (simp_all <;> (try omega)))))))
 
-namespace Gen
+namespace Spec
 
-/-- generated from serialization.go func SerializeSCTSignatureInput (whole body) -/
 def serializeSCTSignatureInput (version_ etype_ : Int) (marshalFails : Bool) : Nat × Bool :=
   if (decide (version_ = Gen.v1)) then
     if (decide (etype_ = Gen.x509LogEntryType)) then
@@ -18,7 +24,6 @@ def serializeSCTSignatureInput (version_ etype_ : Int) (marshalFails : Bool) : N
   else
   ((0 : Nat), true)
 
-/-- generated from serialization.go func SerializeSTHSignatureInput (whole body) -/
 def serializeSTHSignatureInput (version_ : Int) (rootLenBad marshalFails : Bool) : Nat × Bool :=
   if (decide (version_ = Gen.v1)) then
     if rootLenBad then
@@ -28,7 +33,6 @@ def serializeSTHSignatureInput (version_ : Int) (rootLenBad marshalFails : Bool)
   else
   ((0 : Nat), true)
 
-/-- generated from serialization.go func LeafHashForLeaf (whole body) -/
 def leafHashForLeaf (marshalFails : Bool) : Nat × Bool :=
   let hashed_ := false
   if marshalFails then
@@ -37,14 +41,12 @@ def leafHashForLeaf (marshalFails : Bool) : Nat × Bool :=
   let hashed_ := true
   (hashed_.toNat, false)
 
-/-- generated from serialization.go func IsPreIssuer (whole body) -/
 def isPreIssuer (hasCtEku : Bool) : Bool :=
   if hasCtEku then
     true
   else
   false
 
-/-- generated from serialization.go func MerkleTreeLeafFromChain (whole body) -/
 def merkleTreeLeafFromChain (chainLen_ etype_ : Int) (issuerIsPreIssuer buildFails : Bool) : Nat × Bool × Int × Int :=
   let issuerIdx_ := (-1 : Int)
   let preIdx_ := (-1 : Int)
@@ -82,5 +84,29 @@ def merkleTreeLeafFromChain (chainLen_ etype_ : Int) (issuerIsPreIssuer buildFai
   else
   let issuerIdx_ := issuer_
   ((1 : Nat), false, issuerIdx_, preIdx_)
+
+end Spec
+
+namespace Gen
+
+theorem serializeSCTSignatureInput_eq_spec : @Gen.serializeSCTSignatureInput = @Spec.serializeSCTSignatureInput := by
+  funext version_ etype_ marshalFails
+  same_body Gen.serializeSCTSignatureInput Spec.serializeSCTSignatureInput
+
+theorem serializeSTHSignatureInput_eq_spec : @Gen.serializeSTHSignatureInput = @Spec.serializeSTHSignatureInput := by
+  funext version_ rootLenBad marshalFails
+  same_body Gen.serializeSTHSignatureInput Spec.serializeSTHSignatureInput
+
+theorem leafHashForLeaf_eq_spec : @Gen.leafHashForLeaf = @Spec.leafHashForLeaf := by
+  funext marshalFails
+  same_body Gen.leafHashForLeaf Spec.leafHashForLeaf
+
+theorem isPreIssuer_eq_spec : @Gen.isPreIssuer = @Spec.isPreIssuer := by
+  funext hasCtEku
+  same_body Gen.isPreIssuer Spec.isPreIssuer
+
+theorem merkleTreeLeafFromChain_eq_spec : @Gen.merkleTreeLeafFromChain = @Spec.merkleTreeLeafFromChain := by
+  funext chainLen_ etype_ issuerIsPreIssuer buildFails
+  same_body Gen.merkleTreeLeafFromChain Spec.merkleTreeLeafFromChain
 
 end Gen
